@@ -26,7 +26,7 @@ from tracelib import *
 PROP = "C06"
 LEVEL = "exploration"
 FLAVOUR = "plain"
-TIERS = {"quick": (10000, 170), "thorough": (200000, 3300)}
+TIERS = {"quick": (9000, 170), "thorough": (180000, 3300)}
 RULE_TEXT = ("one run = one generated promela-datamodel chart (<= 10 states, parallel/history/final, internal/targetless/multi-target/eventless transitions, "
              "raise/send/assign/if/log/cancel content, integer conditions) executed by spin -T -n<seed> (emitted model) and by the interpreter in the simulator with "
              "delayed events released in the model's order; compared: events dequeued, exits, entries, log values, configurations, termination (raised and sent events through the order in which they are dequeued); "
@@ -73,8 +73,11 @@ def environment(root, rp):
     blk = env.add(gen.El("onentry"))
     small = bool((root.meta or {}).get("par_bias"))
     delays = rp.sample(range(3, 60), rp.randint(1, 4) if not small else rp.randint(5, 10))
+    letters = ["a", "b", "a", "b", "a.x", "c"]
+    if (root.meta or {}).get("completable"):
+        letters = ["a", "b", "c", "c"]      # the letter that finishes regions comes often
     for d in delays:
-        blk.add(gen.El("send", {"event": rp.choice(["a", "b", "a", "b", "a.x"] if small else gen.EXT_EVENTS + ["a", "b"]), "delay": str(d)}, delay=d))
+        blk.add(gen.El("send", {"event": rp.choice(letters if small else gen.EXT_EVENTS + ["a", "b"]), "delay": str(d)}, delay=d))
     env.add(gen.El("transition", {"target": target}))
     idx = min(i for i, c in enumerate(root.children) if c.tag in ("state", "parallel", "final"))
     root.children.insert(idx, env)
@@ -84,7 +87,7 @@ def environment(root, rp):
 
 def gen_plan(seed, k):
     rp = usimlib.substream(seed, "plan")
-    root = p_c01.gen_chart(rp, "promela", {"late": False, "delayed_internal": False, "few_raises": True, "hist_p": 0.3, "quiet": rp.random() < 0.6})
+    root = p_c01.gen_chart(rp, "promela", {"late": False, "delayed_internal": False, "few_raises": True, "hist_p": 0.25, "par_p": 0.45, "completable_p": 0.7, "quiet": rp.random() < 0.6})
     fit(root)
     environment(root, rp)
     return {"id": k, "seed": seed, "entropy_seed": seed & 0x7fffffff, "spin_seed": 1 + (seed % 9973),
